@@ -335,6 +335,48 @@ func (g *Guard) Edges(fn *ssa.Function) eng.EdgeSet {
 			out[e] = true
 		}
 	}
+	// a status variable: `if s == K` where s is a phi of constants; the s == K edge is a guard edge when every incoming
+	// edge that carries K starts in a block that lies behind the guard (the other incoming values are constants != K)
+	base := eng.Union(out)
+	for _, b := range fn.Blocks {
+		iff, ok := b.Instrs[len(b.Instrs)-1].(*ssa.If)
+		if !ok {
+			continue
+		}
+		bo, ok := iff.Cond.(*ssa.BinOp)
+		if !ok || (bo.Op != token.EQL && bo.Op != token.NEQ) {
+			continue
+		}
+		ph, isPhi := bo.X.(*ssa.Phi)
+		k, isK := bo.Y.(*ssa.Const)
+		if !isPhi || !isK || k.Value == nil {
+			continue
+		}
+		okAll, nK := true, 0
+		for i, ev := range ph.Edges {
+			cst, isC := ev.(*ssa.Const)
+			if !isC || cst.Value == nil {
+				okAll = false
+				break
+			}
+			if cst.Value.ExactString() != k.Value.ExactString() {
+				continue
+			}
+			nK++
+			pred := ph.Block().Preds[i]
+			if !(base[eng.Edge{From: pred, To: ph.Block()}] || (len(base) > 0 && eng.Cut(fn, pred, base))) {
+				okAll = false
+			}
+		}
+		if !okAll || nK == 0 {
+			continue
+		}
+		if bo.Op == token.EQL {
+			out[eng.Edge{From: b, To: b.Succs[0]}] = true
+		} else {
+			out[eng.Edge{From: b, To: b.Succs[1]}] = true
+		}
+	}
 	g.emem[fn] = out
 	return out
 }
